@@ -642,6 +642,71 @@ Definition run_plugin (inh : bool) (cfg : config) (oracle : nat -> bytes -> res 
   fl <- gather_fields cfg ;;
   do_events inh ks fl oracle cfg evs.
 
+(* ---- specification vocabulary (used by the theorems; not by the runner) ------------------------------ *)
+(* a value cut into kept and hidden segments *)
+Inductive seg := Keep (b : bytes) | Hide (b : bytes).
+Definition seg_bytes (s : seg) : bytes := match s with Keep b => b | Hide b => b end.
+Definition orig (segs : list seg) : bytes := concat (map seg_bytes segs).
+Definition masked (mode : mmode) (segs : list seg) : bytes :=
+  concat (map (fun s => match s with Keep b => b | Hide b => repl mode b end) segs).
+(* the byte ranges [from, to) of the hidden segments, the first segment starting at pos *)
+Fixpoint hidden_ranges (pos : Z) (segs : list seg) : list sec :=
+  match segs with
+  | [] => []
+  | Keep b :: r => hidden_ranges (pos + len b) r
+  | Hide b :: r => (pos, pos + len b) :: hidden_ranges (pos + len b) r
+  end.
+(* r is the range of a selected group that took part in one of the matches *)
+Definition selected (idxs : list (list Z)) (groups : list Z) (r : sec) : Prop :=
+  exists index g, In index idxs /\ In g groups /\
+    idx index (g * 2) = Ok (fst r) /\ idx index (g * 2 + 1) = Ok (snd r) /\ 0 <= fst r /\ 0 <= snd r.
+Definition covers (c r : sec) : Prop := fst c <= fst r /\ snd r <= snd c.
+Definition groups_ok (nsub : Z) (groups : list Z) : Prop := forall g, In g groups -> 0 <= g <= nsub.
+
+(* same document skeleton: same keys in the same order, same array lengths, null / bool untouched;
+   a string or number is itself or has become a string *)
+Definition leaf_like (v : json) : Prop := match v with JStr _ | JNum _ => True | _ => False end.
+Inductive same_shape : json -> json -> Prop :=
+| SS_refl v : same_shape v v
+| SS_leaf v s : leaf_like v -> same_shape v (JStr s)
+| SS_arr l l' : Forall2 same_shape l l' -> same_shape (JArr l) (JArr l')
+| SS_obj fs fs' : Forall2 (fun a b => fst a = fst b /\ same_shape (snd a) (snd b)) fs fs' ->
+                  same_shape (JObj fs) (JObj fs').
+
+(* the root object after Do: the fields of the event keep their position and key; a value keeps its
+   skeleton unless its key is a configured mark field (then it is a string); new fields are marks *)
+Definition root_frame (names : list bytes) (fs fs' : list (bytes * json)) : Prop :=
+  exists extra,
+    map fst fs' = map fst fs ++ extra /\ (forall k, In k extra -> In k names) /\
+    forall i k v v', nth_error fs i = Some (k, v) -> nth_error fs' i = Some (k, v') ->
+      same_shape v v' \/ (In k names /\ exists s, v' = JStr s).
+Definition event_frame (names : list bytes) (root root' : json) : Prop :=
+  match root with
+  | JObj fs => exists fs', root' = JObj fs' /\ root_frame names fs fs'
+  | _ => same_shape root root'
+  end.
+Definition mark_names (ks : list cmask) (cfg : config) : list bytes :=
+  filter (fun n => negb (is_nil n)) (c_afield cfg :: map k_afield ks).
+
+(* field lists: the node the traversal carries at JSON path p below node n *)
+Fixpoint fm_at (inh : bool) (n : fmnode) (p : path) : fmnode :=
+  match p with
+  | [] => n
+  | k :: r => if fm_has_children n then fm_at inh (fm_child inh n k) r else n
+  end.
+Fixpoint is_prefix (q p : path) : Prop :=
+  match q, p with
+  | [], _ => True
+  | a :: q', b :: p' => a = b /\ is_prefix q' p'
+  | _ :: _, [] => False
+  end.
+Definition strict_prefix (q p : path) : Prop := is_prefix q p /\ (length q < length p)%nat.
+(* no entry of a list lies strictly above an entry of the same or another list *)
+Definition prefix_free (n : fmnode) : Prop :=
+  forall e1 e2, In e1 n -> In e2 n -> ~ strict_prefix (fst e1) (fst e2).
+Definition all_entries (cfg : config) : fmnode :=
+  mask_entries 0 (c_masks cfg) ++ map (fun p => (p, TGIgn)) (c_ign cfg) ++ map (fun p => (p, TGProc)) (c_proc cfg).
+
 (* ---- exchange glue --------------------------------------------------------------------------------
    which = 1: case = (global masks events table)
      global = (#applied_field #applied_value metric (path ...) (path ...))        path = (#key ...)
